@@ -6,6 +6,7 @@ import warnings
 import numpy as np
 
 from .. import gen
+from .. import forms as vforms
 from ..oracles import mgh as OM
 from ..util import arr_snapshot, digest
 
@@ -19,7 +20,7 @@ RULE = ("random programs of 8-40 calls drawn from every public entry point (dist
         "landscape classes with operators and norms, vectorize/snap_pl/lc_approx/average_approx/death_vector, PersistenceLandscaper, "
         "plot_diagrams, matching plots, landscape plots) over a small shared pool of arguments, so the same array object is passed to "
         "many functions; 30% of the calls repeat an earlier call verbatim; int-valued diagrams are passed as nested lists, int arrays "
-        "and float arrays at random. Per call: byte-level snapshot (dtype, shape, bytes; deep for lists) of every argument before and "
+        "and float arrays at random, float64 arrays also Fortran-ordered, as transposed builds, as strided windows of a larger table and read-only; default-constructed estimators are tuned by item assignment on their parameter dicts while other default-constructed ones are in use. Per call: byte-level snapshot (dtype, shape, bytes; deep for lists) of every argument before and "
         "after, canonical digest of the result. non-trivial = program with >=10 calls, >=5 distinct entry points and an argument shared "
         "by >=3 calls; distinct = digest of the program")
 ASSUMPTIONS = ["stateful estimators are created fresh per occurrence (their histories are C18's business)",
@@ -29,6 +30,7 @@ ASSUMPTIONS = ["stateful estimators are created fresh per occurrence (their hist
 TECHNIQUE = "runtime monitoring: call-history recorder with byte-level argument snapshots and result digests, checked offline for purity / repeatability / form independence"
 
 ENTRY = {}
+LAYOUT_FORMS = ["fortran", "transposed-build", "strided", "readonly"]
 
 
 def entry(name, kinds):
@@ -213,6 +215,31 @@ def _(shared, a, b):
 def _(shared, a):
     I = shared["imager"]
     return [I.transform(a, skew=True), I.birth_range, I.pers_range, I.resolution]
+@entry("default PersistenceImager.transform", ("dgmfin",))
+def _(a):
+    # an imager that relies on every documented default: its answer depends on its argument only
+    I = P.PersistenceImager()
+    return [I.transform(a, skew=True), canon(I.weight_params), canon(I.kernel_params), I.pixel_size, I.birth_range, I.pers_range]
+@entry("tuned default PersistenceImager.transform", ("dgmfin", "sigma"))
+def _(a, s):
+    # a default imager tuned after construction the way interactive users do it: by item assignment on its parameter dicts
+    I = P.PersistenceImager()
+    I.kernel_params["sigma"] = s
+    I.weight_params["n"] = 2.0
+    I.pixel_size = 0.5
+    J = P.PersistenceImager(pixel_size=0.5)
+    J.kernel_params["sigma"] = [[s, 0.0], [0.0, 2 * s]]
+    return [I.transform(a, skew=True), J.transform(a, skew=True)]
+@entry("default PersistenceLandscaper / PersImage", ("dgmpos",))
+def _(a):
+    with contextlib.redirect_stdout(io.StringIO()):
+        T = P.PersistenceLandscaper()
+        out = T.fit_transform([a])
+        T.num_steps = 7
+        pi = P.PersImage(verbose=False)
+        r = pi.transform(a)
+        pi.pixels = (3, 3)
+        return [out, r, canon(P.PersistenceLandscaper().get_params())]
 @entry("plot_diagrams", ("dgmspread", "dgm"))
 def _(a, b):
     with fresh_axes() as ax:
@@ -313,9 +340,18 @@ def pick(rng, pool, kind):
         forms = ["float"]
         if it["integer"]:
             forms += ["int", "list", "float32"]
+        if it["float"].dtype == np.float64:
+            forms += LAYOUT_FORMS[:2] if rng.random() < 0.5 else LAYOUT_FORMS[2:]    # the same float64 values in another memory layout
         form = str(rng.choice(forms))
         if kind == "dgm" and it["inf"] and rng.random() < 0.5:
+            if it["float"].dtype == np.float64 and rng.random() < 0.4:
+                lf = str(rng.choice(LAYOUT_FORMS))
+                if "inf:" + lf not in it:
+                    it["inf:" + lf] = vforms.relayout(rng, it["float_inf"], lf)[0]
+                return it["inf:" + lf], ("dgm", i, "inf"), ("dgm", i, "float_inf:" + lf), lf
             return it["float_inf"], ("dgm", i, "inf"), ("dgm", i, "float_inf"), "float"
+        if form in LAYOUT_FORMS and form not in it:
+            it[form] = vforms.relayout(rng, it["float"], form)[0]
         # single precision is a different computation (results agree only to ~1e-7), so it is its own value key: purity and
         # repeatability are judged for it, equality with the double-precision forms is not demanded
         return it[form], (("dgm", i, "f32") if form == "float32" else ("dgm", i)), ("dgm", i, form), form
@@ -427,12 +463,16 @@ def run_case(ctx, k, rng):
 
 def pick_same(rng, pool, p):
     pid = p[2]
-    if pid[0] == "dgm" and len(pid) == 3 and pid[2] in ("float", "int", "list", "float32"):
+    if pid[0] == "dgm" and len(pid) == 3 and pid[2] in ("float", "int", "list", "float32") + tuple(LAYOUT_FORMS):
         it = pool["dgm"][pid[1]]
         forms = ["float"] + (["int", "list", "float32"] if it["integer"] else [])
         if pid[2] == "float32":
             return p
         forms.remove("float32") if "float32" in forms else None
+        if it["float"].dtype == np.float64:
+            forms += LAYOUT_FORMS
         form = str(rng.choice(forms))
+        if form in LAYOUT_FORMS and form not in it:
+            it[form] = vforms.relayout(rng, it["float"], form)[0]
         return it[form], p[1], ("dgm", pid[1], form), form
     return p
